@@ -47,7 +47,7 @@ SetStudyAttr(which, s, key, v) ==
   s \in SIds /\ Step(DoSetStudyAttr(st, which, s, key, v),
        [a |-> IF which = "ua" THEN "set_study_ua" ELSE "set_study_sa", s |-> s, key |-> key, v |-> v, ret |-> 0])
 CreateTrial(s, tm) ==
-  Len(st.trials) < MaxT /\ Step(DoCreateTrial(st, s, tm), [a |-> "create_trial", s |-> s, tm |-> tm, ret |-> 0])
+  Len(st.trials) < MaxT /\ CreateTrialDefined(st, s, tm) /\ Step(DoCreateTrial(st, s, tm), [a |-> "create_trial", s |-> s, tm |-> tm, ret |-> 0])
 SetParam(t, name, v, d) ==
   SetParamDefined(st, t, name, d) /\
   Step(DoSetParam(st, t, name, v, d), [a |-> "set_param", t |-> t, name |-> name, v |-> v, d |-> d, ret |-> 0])
